@@ -40,6 +40,8 @@ def rand_quat(r: random.Random, kind: str):
     """rotations over all of SO(3): uniform, small, exactly 180 deg about an axis / a random axis, near 180, identity"""
     if kind == "identity":
         return [0.0, 0.0, 0.0, 1.0]
+    if kind == "quarter":
+        return mat_to_q(QUARTER[r.randrange(len(QUARTER))])
     if kind == "uniform":
         return q_normalize([r.gauss(0, 1) for _ in range(4)])
     if kind == "r22_atol":
@@ -85,7 +87,7 @@ def gen_cloud(r: random.Random, N: int, kind: str, extent: float, rotate: bool, 
     thin = 10 ** r.uniform(-12, -2)
     sc = {"generic": (1, 1, 1), "aniso": (1, r.choice([0.5, 0.1]), r.choice([0.3, 0.03])), "planar": (1, r.choice([1, 0.3]), 0),
           "collinear": (1, 0, 0), "nearplanar": (1, 1, thin), "nearcollinear": (1, thin, thin * r.choice([1, 0.1])),
-          "duplicated": (1, 1, 1), "two": (1, 1, 1), "lattice": (1, 1, 1)}[kind]
+          "duplicated": (1, 1, 1), "two": (1, 1, 1), "lattice": (1, 1, 1), "cube": (1, 1, 1), "octa": (1, 1, 1)}[kind]
     if kind in SYMMETRIC:
         verts = [[float(a), float(b), float(c)] for a in (-1, 1) for b in (-1, 1) for c in (-1, 1)] if kind == "cube" else \
             [[1.0, 0, 0], [-1.0, 0, 0], [0, 1.0, 0], [0, -1.0, 0], [0, 0, 1.0], [0, 0, -1.0]]
